@@ -161,8 +161,10 @@ def check_pair(name, tobj, v, out):
       sig = 'C22:not-idempotent:alttext-empty' if r1 == '' else 'C22:not-idempotent:alttext-convertible-text'
     elif tn == 'ChoiceList' and isinstance(v, str) and isinstance(r1, tuple) and len(r1) == 0 and r2 is None:
       sig = 'C22:not-idempotent:choicelist-empty-json-list'
-    elif tn in ('RefList', 'Attachments') and isinstance(r1, list) and len(r1) == 0 and r2 is None:
-      # empty RecordSet / list of empty RecordSets: the emptiness test is skipped on those branches
+    elif tn in ('RefList', 'Attachments') and isinstance(r1, list) and len(r1) == 0 and r2 is None and \
+        not isinstance(v, (str, objtypes.AltText)):
+      # the known finding: an empty RecordSet / a list of empty RecordSets skips the emptiness test on those
+      # branches. (An empty list reached from TEXT such as '[]' is a different path and is not covered.)
       sig = 'C22:not-idempotent:reflist-empty-list-result'
     elif (tn in ('Numeric', 'PositionNumber', 'ManualSortPos') and isinstance(v, int) and type(r1) is str
           and isinstance(r2, float) and abs(r2) == float('inf')):
